@@ -13,7 +13,7 @@ from .gen import Rng
 
 TRACE_RE = re.compile(r" @trace=(.*)$")
 SORT_OPS = ("clear", "remove_fully", "rmtree")
-ENV_OPS = ("put", "append", "truncate", "del", "rmtree", "mkdir", "symlink", "cat", "stat", "dump")
+ENV_OPS = ("put", "append", "truncate", "del", "rmtree", "mkdir", "symlink", "cat", "stat", "dump", "fsize")
 
 
 def direct_content_writes(events, op=""):
@@ -1122,7 +1122,8 @@ def leg_short_write(r, flavour, n_cases):
             shutil.copytree(scratch, sc2, symlinks=True)
             out = _run_limited(flavour, [victim], sc2, limit=lim)
             probe = ["dump c0", f"metadata s c0 {hx(key)}", f"metadata a c0 {hx(key)}", f"read s c0 {hx(key)}",
-                     f"read a c0 {hx(b'other')}", victim, f"read s c0 {hx(key)}", "dump c0/tmp"]
+                     f"read a c0 {hx(b'other')}", victim, f"read s c0 {hx(key)}", "dump c0/tmp",
+                     f"metadata s c0 {hx(key)}", f"metadata a c0 {hx(key)}", f"read a c0 {hx(key)}"]
             il = _run_limited(flavour, probe, sc2)
             shutil.rmtree(sc2, ignore_errors=True)
             evals += 1
@@ -1161,6 +1162,13 @@ def leg_short_write(r, flavour, n_cases):
                         fs_.append(Failure("write_not_retrievable", 0, f"{where}: after the retry the data is not read back", sig=sig))
                 if norm_line(il[7]) != "ok":
                     fs_.append(Failure("tmp_left", 0, f"{where}: temp file left behind", sig=sig))
+                # after the retry (appended behind whatever the failed call left): both flavours see the same, new state
+                if retry[0] == "ok":
+                    if _OBS_TIME.sub("time=T", E.norm(il[8])) != _OBS_TIME.sub("time=T", E.norm(il[9])):
+                        fs_.append(Failure("flavours_differ", 0, f"{where}: after the retry sync and async lookups differ "
+                                           f"({E.norm(il[8])[:40]} | {E.norm(il[9])[:40]})", sig=sig))
+                    if toks(il[10])[:2] != toks(il[6])[:2]:
+                        fs_.append(Failure("flavours_differ", 0, f"{where}: after the retry sync and async reads differ", sig=sig))
             for f in fs_:
                 f.replay_text = "\n".join(setup) + f"\n# next op run with RLIMIT_FSIZE={lim}, SIGXFSZ ignored:\n{victim}\n# then:\n" + "\n".join(probe) + "\n"
             failures += fs_
@@ -1169,6 +1177,70 @@ def leg_short_write(r, flavour, n_cases):
         shutil.rmtree(scratch, ignore_errors=True)
     return {"failures": failures, "disagreements": [], "evaluations": evals, "distinct_nontrivial": len(kinds),
             "samples": samples, "short_writes": evals}
+
+
+def leg_resumed_writer(flavours):
+    """A REAL short write on an open handle, after which the fault goes away and the caller carries on: a file-size
+    limit set inside the harness process cuts one write of a streamed writer short (the call answers ok <n> with
+    n < len, or fails with EFBIG), the limit is lifted, the caller supplies the bytes not yet acknowledged and
+    commits.  The commit must answer the integrity of exactly the acknowledged bytes, the key must read them
+    back, and the content area must be valid."""
+    failures, samples = [], []
+    evals, kinds = 0, set()
+    data = bytes((i * 7 + 3) % 251 for i in range(10000))
+    for flavour in flavours:
+        for api in "sa":
+            for keyed in (True, False):
+                for lim in (0, 1, 4096, 9999):
+                    for declared in (None, len(data)):
+                        if declared is not None and lim == 0:
+                            continue
+                        scratch = os.path.join(C.scratch_root(), f"resume{next(E._counter)}")
+                        k = hx(b"rk") if keyed else "-"
+                        sz = f"size={declared}" if declared is not None else "size=-"
+                        ops = [f"wopen {api} c0 W1 {k} algo=sha256 {sz} sri=- time=- meta=- raw=-", f"fsize {lim}",
+                               f"wwrite1 W1 {hx(data)}"]
+                        out, _ = E.run_impl(flavour, "\n".join(ops) + "\n", scratch=scratch)
+                        r1 = toks(out[2]) if len(out) > 2 else ["missing"]
+                        acked = int(r1[1]) if r1[0] == "ok" and len(r1) > 1 else 0
+                        # second process image is not possible (the handle lives in the first): run the whole program again
+                        rest = data[acked:]
+                        ops2 = ops + ["fsize -"] + ([f"wwrite W1 {hx(rest)}"] if rest else []) + ["wcommit W1", "dump c0/content-v2", "dump c0/tmp"]
+                        if keyed:
+                            ops2.append(f"read s c0 {hx(b'rk')}")
+                        ops2.append(f"read_hash a c0 {sri_tok('sha256', data)}")
+                        out2, _ = E.run_impl(flavour, "\n".join(ops2) + "\n", scratch=scratch)
+                        shutil.rmtree(scratch, ignore_errors=True)
+                        evals += 1
+                        where = (f"{flavour}: streamed writer ({api}, {'keyed' if keyed else 'by address'}, declared {declared}) under a file-size "
+                                 f"limit of {lim}: first write -> {' '.join(r1[:2])}; limit lifted, rest supplied")
+                        sig = {"victim": "resumed-writer", "api": api, "keyed": keyed, "mapped": declared is not None}
+                        kinds.add((flavour, api, keyed, lim, declared, r1[0], acked))
+                        lines = [toks(x) for x in out2]
+                        if len(lines) < len(ops2) or any(t[0] in ("panic", "hang") for t in lines):
+                            failures.append(Failure("panic_or_hang_on_fault", 0, f"{where}: {[' '.join(t[:2]) for t in lines][-3:]}", sig=sig)); continue
+                        ci = ops2.index("wcommit W1")
+                        commit = lines[ci]
+                        fs_ = content_valid_monitor(out2[ci + 1], where)
+                        if norm_line(out2[ci + 2]) != "ok":
+                            fs_.append(Failure("tmp_left", 0, f"{where}: temp file left behind", sig=sig))
+                        if commit[0] != "ok":
+                            fs_.append(Failure("retry_fails", 0, f"{where}: commit -> {' '.join(commit[:3])}", sig=sig))
+                        else:
+                            if unhx(commit[1]).decode(errors="replace") != L.sri_of("sha256", data):
+                                fs_.append(Failure("wrong_address", 0, f"{where}: the commit answers an integrity that is not the digest of the "
+                                                   "bytes that were acknowledged", sig=sig))
+                            for j in range(ci + 3, len(ops2)):
+                                rd = lines[j]
+                                if rd[0] != "ok" or unhx(rd[1]) != data:
+                                    fs_.append(Failure("write_not_retrievable", 0, f"{where}: `{ops2[j][:30]}` -> {' '.join(rd[:2])[:40]}", sig=sig))
+                        for f in fs_:
+                            f.replay_text = "\n".join(ops2) + "\n"
+                        failures += fs_
+                        if len(samples) < 3:
+                            samples.append({"program": [o[:60] for o in ops2], "results": [" ".join(t[:2])[:40] for t in lines]})
+    return {"failures": failures, "disagreements": [], "evaluations": evals, "distinct_nontrivial": len(kinds),
+            "samples": samples, "resumed_writers": evals}
 
 
 def norm_line(l):
